@@ -57,7 +57,7 @@ type Unit struct {
 	lits           map[string]Term
 	litVal         map[string]string // literal constant name -> its text
 	havocSeq       int
-	uncontracted   map[string]bool // functions of the module called here that have no contract
+	uncontracted   map[string]*ssa.Function // functions of the module called here that have no contract
 	roMaps         map[string]bool // constants naming read-only map globals
 	keepProved     bool
 	havocMemo      map[string]Term
